@@ -122,3 +122,35 @@ def trace_difference(real_report, model_answer):
                 if (R in rs) != (R in msx):
                     return f"results of {k[0]} on {k[1]}: a result with trace {str(R)[:300]} is {'only in the real report' if R in rs else 'only predicted by the model'}"
     return None
+
+
+def unnamed_paths(real_report, model_answer):
+    """C12's last clause on the real report, with the model saying which entries HAVE a path to name: a description of a
+    real trace entry (at any depth) whose resultPath is empty although every entry the model predicts for that component
+    under the same (validation, focus) pair names a path; None otherwise"""
+    rc, mc = real_canon(real_report), model_canon(model_answer)
+    def entries(R, acc):
+        for e in R:
+            acc.append((e[0], e[1]))
+            if len(e) == 3:
+                for (f, r), _ in e[2]:
+                    entries(r, acc)
+        return acc
+    for k in sorted(rc):
+        real_e, model_e = [], []
+        for R, _ in rc[k]:
+            entries(R, real_e)
+        for R, _ in mc.get(k, ()):
+            entries(R, model_e)
+        for comp, path in real_e:
+            if not path:
+                named = [p for c, p in model_e if c == comp]
+                if named and all(named):
+                    return f"result of {k[0]} on {k[1]}: the trace entry of `{comp}` has an empty resultPath (the failed path is {named[0]!r})"
+        # the same components on both sides, but an entry names another path than the constraint's
+        if sorted(c for c, _ in real_e) == sorted(c for c, _ in model_e):
+            for comp in sorted(set(c for c, _ in real_e)):
+                rp, mp = sorted(set(p for c, p in real_e if c == comp)), sorted(set(p for c, p in model_e if c == comp))
+                if rp != mp:
+                    return f"result of {k[0]} on {k[1]}: the trace entries of `{comp}` name the path(s) {[p for p in rp if p not in mp][:2]}, but the failed constraint's path is {[p for p in mp if p not in rp][:2]}"
+    return None
